@@ -113,6 +113,7 @@ int main(int argc, char **argv)
         kind = ABT_POOL_RANDWS;
     else
         return 2;
+    setvbuf(stdout, NULL, _IOLBF, 0); /* a hang must not swallow the answers already given */
     CK(ABT_init(0, NULL));
     for (i = 0; i < NP; i++)
         CK(ABT_pool_create_basic(kind, accesses[i], ABT_FALSE, &pools[i]));
